@@ -718,12 +718,59 @@ Section Count.
       apply elem_of_cons in Hv as [->|Hv]; [done|by apply Hroot].
   Qed.
 
+  Lemma hdr_of_uhdr_cases o f m v :
+    hdr_of (uhdr o f m) v = hdr_of m v ∨ (v = o ∧ hdr_of (uhdr o f m) v = f (hdr_of m v)).
+  Proof.
+    destruct (decide (v = o)) as [->|]; [|left; by apply hdr_of_uhdr_ne].
+    destruct (get m o) as [x|] eqn:Hx.
+    - right. split; [done|]. apply hdr_of_uhdr_eq. eauto.
+    - left. unfold hdr_of. by rewrite get_uhdr, decide_True, Hx by done.
+  Qed.
+
+  (** folds of tc-non-increasing header updates *)
+  Lemma fold_uhdr_tc f l m v :
+    (∀ h, (h_tc (f h) ≤ h_tc h)%N) →
+    (v ∉ l → hdr_of (fold_left (λ m o, uhdr o f m) l m) v = hdr_of m v) ∧
+    (tc (fold_left (λ m o, uhdr o f m) l m) v ≤ tc m v)%N.
+  Proof.
+    intros Hf. revert m. induction l as [|c l IH]; intros m; [done|]. cbn [fold_left].
+    destruct (IH (uhdr c f m)) as [IH1 IH2]. split.
+    - intros [Hne Hnl]%not_elem_of_cons. rewrite IH1 by done. by apply hdr_of_uhdr_ne.
+    - etrans; [exact IH2|]. destruct (hdr_of_uhdr_cases c f m v) as [->|[_ ->]]; [done|apply Hf].
+  Qed.
+
+  (** every header is either untouched, or belongs to a reachable object whose tracing counter
+      does not exceed its (unchanged) strong count *)
+  Definition TcOk (m' : machine) : Prop :=
+    ∀ o, hdr_of m' o = hdr_of m0 o ∨ (reach P m0 o ∧ (tc m' o ≤ rc m0 o)%N).
+
+  Lemma CInv_tc_le busy s v :
+    CInv busy [] s → v ∈ tracked s busy → (tc (t_m s) v ≤ rc m0 v)%N.
+  Proof.
+    intros HI Hv. rewrite (ci_tc _ _ _ HI v Hv), occ_nil, Nat.add_0_r.
+    pose proof (pp_count _ _ _ Hpre v (reach_alloc v (ci_reach _ _ _ HI v Hv))) as Hc.
+    assert (Hle : (cnt P m0 (proc s) v ≤ in_fields m0 v)%nat); [|lia].
+    apply cnt_le_in_fields.
+    - pose proof (ci_nodup _ _ _ HI) as Hnd. unfold tracked in Hnd.
+      rewrite (assoc_L (++)) in Hnd. by apply NoDup_app in Hnd as [? _].
+    - intros q Hq. apply alloc_lt, reach_alloc, (ci_reach _ _ _ HI). unfold tracked, proc in *.
+      rewrite !elem_of_app in *. tauto.
+  Qed.
+
+  Lemma CInv_tcok busy s : CInv busy [] s → TcOk (t_m s).
+  Proof.
+    intros HI o. destruct (decide (o ∈ tracked s busy)) as [Ho|Ho].
+    - right. split; [by apply (ci_reach _ _ _ HI)|by eapply CInv_tc_le].
+    - left. by apply (ci_un _ _ _ HI).
+  Qed.
+
   (** what an unwound counting phase leaves behind *)
   Definition PanicPost (m' : machine) : Prop :=
     mframe K m0 m' ∧ nobad m' ∧ pc m' `suffix_of` pc m0 ∧
     pc_size m' = N.of_nat (length (pc m')) ∧
     (∀ v, alloc m0 v → (mk m' v = NM ∨ mk m' v = PC) ∧ (mk m' v = PC ↔ v ∈ pc m')) ∧
-    (∀ v, v ∈ pc m' → tc m' v = 0%N).
+    (∀ v, v ∈ pc m' → tc m' v = 0%N) ∧
+    TcOk m'.
 
   Lemma set_mark_idem k h : set_mark k (set_mark k h) = set_mark k h.
   Proof. done. Qed.
@@ -790,10 +837,24 @@ Section Count.
       + rewrite (Hmark4 v H), (Hm3 v H), (Hm2 v H), Hpc4, Hpcs. intros Hv.
         destruct (Hdisj v Hv) as [HL Hp]. rewrite decide_False by done.
         rewrite decide_False by done. by apply Hpc.
-    - intros v. rewrite Hpc4. intros Hv.
-      assert (Hal : alloc m0 v).
-      { apply reach_alloc, Hre. rewrite Hpcs in Hv. unfold tracked. rewrite !elem_of_app. tauto. }
-      rewrite (Hm4 v Hal). by rewrite decide_True by done.
+    - split.
+      { intros v. rewrite Hpc4. intros Hv.
+        assert (Hal : alloc m0 v).
+        { apply reach_alloc, Hre. rewrite Hpcs in Hv. unfold tracked. rewrite !elem_of_app. tauto. }
+        rewrite (Hm4 v Hal). by rewrite decide_True by done. }
+      intros v.
+      destruct (fold_uhdr_tc reset_tc (pc m3) m3 v) as [E4 T4]; [cbn; lia|]. fold m4 in E4, T4.
+      destruct (fold_uhdr_tc (set_mark NM) L m2 v) as [E3 T3]; [done|].
+      fold (unmark_all L m2) in E3, T3. fold m3 in E3, T3.
+      destruct (decide (v ∈ tracked s [p])) as [Hv|Hv].
+      + right. split; [by apply Hre|]. etrans; [exact T4|]. etrans; [exact T3|].
+        etrans; [|by eapply CInv_tc_le]. subst m2.
+        destruct (hdr_of_uhdr_cases p (set_mark NM) (t_m s) v) as [->|[_ ->]]; done.
+      + left. pose proof (proj2 (Hun v Hv)) as Hsame.
+        unfold tracked in Hv. rewrite !not_elem_of_app, not_elem_of_cons in Hv.
+        destruct Hv as (Hv1 & Hv2 & Hv3 & Hv4 & Hv5 & _).
+        rewrite E4 by (by rewrite Hpcs). rewrite E3 by (subst L; rewrite !not_elem_of_app; done).
+        subst m2. by rewrite hdr_of_uhdr_ne by done.
   Qed.
 
   Lemma process_counting_inv s p :
